@@ -1,5 +1,5 @@
 SPECIFICATION Spec
 CONSTANTS
-  MaxArgs = 3
+  MaxArgs = 4
 INVARIANTS SrcOrRecvFirst DstPlace ArgsInOrder ErrLast NamesPreserved ResultNamePreserved IllegalRejected DistinctNames QualifierUsed Emit
 CHECK_DEADLOCK FALSE
